@@ -58,7 +58,7 @@ type Features struct {
 	Redundant       bool // redundant parentheses
 	MaxDepth        int
 	// clause-level switches (all on by default)
-	NoDistinctOn, NoFetch, NoForClause, NoReturning, NoOnConflict, NoDMLWith, NoMaterialized, NoGroupingOps bool
+	NoDistinctOn, NoFetch, NoForClause, NoReturning, NoOnConflict, NoDMLWith, NoMaterialized, NoGroupingOps, NoWindowFrame bool
 	// Flat: no nested query anywhere and no statement-starting keyword after the
 	// first token (SELECT/INSERT ... VALUES/DELETE only): the sub-grammar C12 quantifies over
 	Flat bool
